@@ -19,6 +19,7 @@ def queries(tier):
     sse = [Query(name="sse_8bit_%dx%d_origin%d_%d_tf%d_ref%d" % (vw, vh, ox, oy, tf, ref), harness="C26/psnr.c", gen=gen, defines=["VW=%d" % vw, "VH=%d" % vh, "ORIGX=%d" % ox, "ORIGY=%d" % oy, "TF=%d" % tf, "ISREF=%d" % ref], unwind=520, funcs=[ED + ":psnr_calculations"], timeout=3000, mem_gb=24,
                   bound="visible %dx%d in a padded 8x8 picture, picture origin (%d,%d), temporal filtering %s, %s picture, all sample values of source, saved source and reconstruction" % (vw, vh, ox, oy, "on" if tf else "off", "reference" if ref else "non-reference"), what="SSE values exact over visible samples")
             for ox, oy, tf, ref in ((2, 2, 0, 0), (2, 2, 1, 1), (0, 4, 1, 0), (0, 4, 0, 1))]
+    # measured this session: even a 4x2 / 2x4 visible area does not finish in 1500 s on a loaded machine, so no SSE-vs-specification query is in the quick tier
     # the SSE queries pass in 750-910 s / 7 GB each (measured); too slow for the per-change tier
     return (sse if tier == "thorough" else []) + [
             Query(name="sqr_macro_is_square", harness="C26/psnr.c", entry="sqr_macro", gen=gen, defines=["CHECK_SQR_MACRO=1"], unwind=520, funcs=["Source/Lib/Common/Codec/EbUtility.h:SQR"], timeout=600, bound="all differences -255..255", what="the squaring macro used by the statistic is x*x"),
